@@ -157,6 +157,11 @@ class SymObj:
         return None, None
 
 
+class _ClassRef:
+    def __init__(self, name):
+        self.name = name
+
+
 class Closure:
     def __init__(self, fn, ev, selfobj=None):
         self.fn, self.ev, self.selfobj = fn, ev, selfobj
@@ -185,6 +190,14 @@ class OpaqueFn:
 def _norm_vec(v):
     v = np.asarray(v, dtype=object)
     return sp.sqrt(sum(x ** 2 for x in v.flat))
+
+
+def _norm_axis(v, axis):
+    v = np.asarray(v, dtype=object)
+    if axis is None or v.ndim == 1:
+        return _norm_vec(v)
+    sq = np.sum(v * v, axis=axis)
+    return vmap(sp.sqrt, sq)
 
 
 def _mat(a):
@@ -261,7 +274,7 @@ NP_FUNCS = {
     'numpy.dot': lambda a, b: np.dot(a, b), 'numpy.inner': lambda a, b: np.inner(a, b), 'numpy.outer': lambda a, b: np.outer(a, b),
     'numpy.cross': lambda a, b: np.cross(a, b), 'numpy.einsum': lambda spec, *ops: np.einsum(spec, *[np.asarray(o, dtype=object) for o in ops]),
     'numpy.transpose': lambda a, *ax: np.transpose(a, *ax), 'numpy.trace': lambda a: np.trace(a), 'numpy.sum': _sum,
-    'numpy.linalg.norm': lambda v, axis=None: _norm_vec(v) if axis is None else arr([_norm_vec(r) for r in (v if axis in (1, -1) else v.T)]),
+    'numpy.linalg.norm': lambda v, axis=None: _norm_axis(v, axis),
     'numpy.linalg.det': lambda a: _mat(a).det(), 'numpy.linalg.inv': lambda a: _unmat(_mat(a).inv()),
     'numpy.linalg.solve': lambda a, b: _unmat(_mat(a).solve(_mat(b))) if np.ndim(b) == 2 else arr(list(_mat(a).solve(sp.Matrix(list(b))))),
     'numpy.isclose': _isclose, 'numpy.allclose': lambda a, b, **k: _all(_isclose(a, b)),
@@ -370,6 +383,9 @@ class SymEval:
         self.decide = decide
         self.opaque_calls = opaque_calls
         self.depth = 0
+        self.skip = None       # predicate(stmt) -> True to treat a statement as the identity (declared per rule, with a reason)
+        self.skipped = []
+        self.classes = {}      # local class name -> (ClassDef, mro tuple) for instantiation
         self.max_depth = max_depth
         self.trace = []
 
@@ -410,6 +426,8 @@ class SymEval:
             return p.env[n.id]
         if n.id in ('True', 'False', 'None'):
             return {'True': True, 'False': False, 'None': None}[n.id]
+        if n.id in self.classes:
+            return _ClassRef(n.id)
         if n.id in self.funcs:
             return Closure(self.funcs[n.id], self)
         g = self.resolve_global(n)
@@ -493,6 +511,9 @@ class SymEval:
             if r is None:
                 raise Opaque('identity ' + norm(n))
             return r if isinstance(op, ast.Is) else not r
+        if isinstance(a, (tuple, list)) and isinstance(b, (tuple, list)):
+            r = tuple(a) == tuple(b)
+            return r if isinstance(op, ast.Eq) else (not r if isinstance(op, ast.NotEq) else False)
         if isinstance(a, str) or isinstance(b, str) or a is None or b is None:
             r = a == b
             return r if isinstance(op, ast.Eq) else (not r if isinstance(op, ast.NotEq) else False)
@@ -675,6 +696,13 @@ class SymEval:
                     raise Opaque('**%s' % norm(k.value))
             else:
                 kw[k.arg] = self.ev(k.value, p)
+        if isinstance(f, _ClassRef):
+            cls, mro = self.classes[f.name]
+            obj = SymObj(cls, {}, f.name.lower(), mro)
+            init, _ = obj.lookup('__init__')
+            if init is not None:
+                self.call_fn(init, [obj] + args, kw, p, want_none=True)
+            return obj
         if isinstance(f, Closure):
             a2 = ([f.selfobj] if f.selfobj is not None else []) + args
             return self.call_fn(f.fn, a2, kw, p)
@@ -722,7 +750,7 @@ class SymEval:
             env[a.vararg.arg] = tuple(args[len(names):])
         return env
 
-    def call_fn(self, fn, args, kw, p):
+    def call_fn(self, fn, args, kw, p, want_none=False):
         """inline a repository function: single-path result required at call sites"""
         self.depth += 1
         if self.depth > self.max_depth:
@@ -765,6 +793,9 @@ class SymEval:
         return paths
 
     def stmt(self, s, p):
+        if self.skip is not None and self.skip(s):
+            self.skipped.append(s)
+            return [p]
         m = getattr(self, 's_' + type(s).__name__, None)
         if m is None:
             raise Opaque('statement kind %s: %s' % (type(s).__name__, norm(s)[:80]))
